@@ -130,7 +130,8 @@ def sign_of(e: ast.AST, core_pred) -> Optional[int]:
             if c in (1, -1):
                 s = sign_of(b, core_pred)
                 return None if s is None else s * c
-    if isinstance(e, ast.Call) and dotted(e.func) in ("np.negative", "numpy.negative") and len(e.args) == 1:
+    if isinstance(e, ast.Call) and dotted(e.func) in ("np.negative", "numpy.negative", "neg", "operator.neg") and len(e.args) == 1 \
+            and not e.keywords:
         s = sign_of(e.args[0], core_pred)
         return None if s is None else -s
     return None
